@@ -6,6 +6,12 @@ mod util;
 mod export;
 mod progs;
 mod c08;
+mod c13;
+mod c15;
+mod c06;
+mod c07;
+mod c14;
+mod execgen;
 
 use std::fs;
 use std::io::Write;
@@ -71,6 +77,11 @@ fn main() {
             let mut em = Emitter::new();
             match prop {
                 "C08" => c08::generate(&mut em, seed, thorough),
+                "C13" => c13::generate(&mut em, seed, thorough),
+                "C15" => c15::generate(&mut em, seed, thorough),
+                "C06" => c06::generate(&mut em, seed, thorough),
+                "C07" => c07::generate(&mut em, seed, thorough),
+                "C14" => c14::generate(&mut em, seed, thorough),
                 other => {
                     eprintln!("unknown property {}", other);
                     std::process::exit(2);
